@@ -213,6 +213,7 @@ class FutureImplBase : private FutureImplResultMember<Result> {
   bool run(int s) {
     while (s == kNotStarted) {
       if (status_.intrusiveStatus().compare_exchange_weak(s, kRunning, std::memory_order_acq_rel)) {
+        DISPENSO_VERIF_NOTE("InlFutRun", this, PerPoolPerThreadInfo::inlineDepth(), 0);
         runFunc();
         status_.notify(kReady);
         if (taskSetCounter_) {
@@ -248,6 +249,7 @@ class FutureImplBase : private FutureImplResultMember<Result> {
     ThenChain* head = thenChain_.load(std::memory_order_acquire);
     // While the chain contains anything, let's try to get it and dispatch the chain.
     while (head) {
+      DISPENSO_VERIF_NOTE("InlFutThenChain", this, PerPoolPerThreadInfo::inlineDepth(), 0);
       if (thenChain_.compare_exchange_weak(head, nullptr, std::memory_order_acq_rel)) {
         // Managed to exchange with head, value of thenChain_ now points to null chain.
         // Head points to the implicit list of items to be executed.
